@@ -39,6 +39,7 @@ func NewStubTable() *StubTable {
 	installAtomicStubs(t)
 	installSyncMapStubs(t)
 	installStringsStubs(t)
+	installSymStringStubs(t)
 	t.Native["sort.Slice"] = func(i *interpreter, caller *frame, fn *ssa.Function, args []value) value {
 		return sortSlice(i, caller, args)
 	}
@@ -141,6 +142,8 @@ func printable(i *interpreter, caller *frame, a value) interface{} {
 		return printable(i, caller, a.v)
 	case symv:
 		return "<sym>"
+	case symString:
+		return "<symbolic string>"
 	case bool, string, int, int8, int16, int32, int64, uint, uint8, uint16, uint32, uint64, uintptr, float32, float64:
 		return a
 	case nil:
@@ -338,6 +341,9 @@ func (ex *Explorer) intrinsic(caller *frame, name string, args []value) (value, 
 		return symIte(ex, c, args[0], args[1]), true
 	case "vUnsupported":
 		unsupported("harness: %s", args[0].(string))
+	case "vStr":
+		// vStr(name, n): a string of n symbolic ASCII bytes (1..127)
+		return ex.newSymString(args[0].(string), args[1].(int)), true
 	case "vBytes":
 		// vBytes(name, maxLen): an abstract []byte of symbolic length in [0,maxLen]
 		nm := args[0].(string)
